@@ -75,6 +75,10 @@ pub const ST_OMIT_DEFAULT_DST: u8 = 2;
 pub const ST_PLUS: u8 = 4;
 pub const ST_PAD: u8 = 8;
 pub const ST_QUOTE: u8 = 16;
+/// rule times carry an explicit sign ("/+2"): syntax of the RFC 8536 extension only
+pub const ST_TIME_SIGN: u8 = 32;
+/// with ST_TIME_SIGN: a zero rule time is written "-0" instead of "+0"
+pub const ST_NEG_ZERO: u8 = 64;
 
 impl DaySpec {
     pub fn text(&self) -> String {
@@ -159,7 +163,12 @@ impl RuleSpec {
                     s.push_str(&d.text());
                     if !(*t == 7200 && style & ST_OMIT_DEFAULT_TIME != 0) {
                         s.push('/');
-                        s.push_str(&hms(*t as i64, style & !ST_PAD, false));
+                        if style & ST_TIME_SIGN != 0 && *t == 0 && style & ST_NEG_ZERO != 0 {
+                            s.push('-');
+                            s.push_str(&hms(0, style & !ST_PAD, false));
+                        } else {
+                            s.push_str(&hms(*t as i64, style & !ST_PAD, style & ST_TIME_SIGN != 0));
+                        }
                     }
                 }
                 s
@@ -176,6 +185,18 @@ impl RuleSpec {
                 let bad = |t: i32| t < 0 || t > 24 * 3600 + 59 * 60 + 59;
                 bad(*start_time) || bad(*end_time)
             }
+        }
+    }
+
+    /// True if the string rendered with `style` needs the extensions: by value, or because a rule
+    /// time is written with an explicit sign (which the plain grammar does not have).
+    pub fn needs_extensions_styled(&self, style: u8) -> bool {
+        if self.needs_extensions() {
+            return true;
+        }
+        match self {
+            RuleSpec::Fixed { .. } => false,
+            RuleSpec::Alt { start_time, end_time, .. } => style & ST_TIME_SIGN != 0 && [start_time, end_time].iter().any(|t| !(**t == 7200 && style & ST_OMIT_DEFAULT_TIME != 0)),
         }
     }
 
@@ -532,7 +553,7 @@ impl ZoneSpec {
             (None, _) => None,
             (Some(_), 1) => None,
             (Some(r), v) => {
-                if r.needs_extensions() && v < 3 {
+                if r.needs_extensions_styled(self.rule_style) && v < 3 {
                     return Err(());
                 }
                 Some(r.build().ok_or(())?)
